@@ -22,6 +22,8 @@ from .refwire import Tap
 CERTS = os.path.join(os.path.dirname(os.path.abspath(__file__)), "certs")
 CLIENT_ADDR = ("1.2.3.4", 1234)
 CLIENT_ADDR2 = ("1.2.3.5", 4321)
+PROBE_ADDR = ("1.2.3.7", 7777)  # source of forged path probes (op "forge" with from_alt); what the server sends there is blackholed
+CLIENT_ADDR3 = ("1.2.3.6", 5678)  # after a second rebinding (fates["rebind_again_after"])
 SERVER_ADDR = ("2.3.4.5", 4433)
 
 
@@ -31,6 +33,8 @@ def client_addr(k: int):
         return CLIENT_ADDR
     if k == 1:
         return CLIENT_ADDR2
+    if k == -1:
+        return CLIENT_ADDR3
     return ("6.6.6.%d" % (k % 250), 6000 + k)
 
 V1 = 0x00000001
@@ -272,12 +276,16 @@ class Fates:
     def adversarial(self, t):
         return t < self.adversarial_until and self.seen < self.adversarial_dgrams
 
-    def deliveries(self, direction, index, t):
+    def deliveries(self, direction, index, t, rebound=None):
         p = self.p
         base = p.get("delay", 0.02)
         self.seen += 1
         rebind_after = p.get("rebind_after")  # client datagram index from which the source address changes
         alt = direction == "c2s" and rebind_after is not None and index >= rebind_after
+        if rebound is not None:
+            # the simulator decides when the rebinding takes effect (never before the handshake has completed on both
+            # sides: QUIC relies on a stable address for the duration of the handshake, RFC 9000 section 9)
+            alt = {0: False, 1: True, 2: -1}[int(rebound)] if direction == "c2s" else False
         if alt:
             self.counts["rebound"] += 1
         forced = p.get("forced", {}).get("%s:%d" % (direction, index))
@@ -398,6 +406,10 @@ class SimNet:
         self.in_flight = 0
         self.timer_spins = 0
         self.spin_sources = {}
+        self.stale_address_drops = 0
+        self.rebound_at = None  # index of the first client datagram that left from the new address
+        self.rebound_again_at = None
+        self.forged = 0
         self.zeno = []  # (endpoint, deadline source, deadline, now): expired deadline re-armed twice at the same instant without progress
         self.corrupt_pos = None
         self.written = {}  # (side, stream_id) -> bytes written
@@ -571,11 +583,32 @@ class SimNet:
         for m in self.monitors:
             m.on_datagram_out(ep, rec, self.now)
         direction = "c2s" if ep is self.client else "s2c"
-        fate = self.fates.deliveries(direction, rec.index, self.now)
+        rebound = None
+        rebind_after = self.fates.p.get("rebind_after")
+        if rebind_after is not None:
+            if (ep is self.client and self.rebound_at is None and rec.index >= rebind_after
+                    and self.client.handshake_complete and self.server is not None and self.server.handshake_complete
+                    and getattr(self.client.conn, "_handshake_confirmed", True)):
+                # (confirmed = the client has received HANDSHAKE_DONE, hooked read: until then it may only probe with
+                # Handshake packets, which a server that already dropped its handshake keys cannot use to learn the new address)
+                self.rebound_at = rec.index
+            again = self.fates.p.get("rebind_again_after")
+            if ep is self.client and again is not None and self.rebound_at is not None and self.rebound_again_at is None and rec.index >= max(again, self.rebound_at + 1):
+                self.rebound_again_at = rec.index  # a second rebinding: third address
+            rebound = 0 if self.rebound_at is None else (1 if self.rebound_again_at is None else 2)
+        fate = self.fates.deliveries(direction, rec.index, self.now, rebound=rebound)
         rec.fate = fate
-        if ep is self.server and addr not in (CLIENT_ADDR, CLIENT_ADDR2):
+        if ep is self.server and addr not in (CLIENT_ADDR, CLIENT_ADDR2, CLIENT_ADDR3):
             rec.fate = "blackholed (sent to a third-party address)"
             return
+        if ep is self.server:
+            # a NAT rebinding kills the old binding: once the client's datagrams leave from its new address, whatever the
+            # server still sends to an address the client does not have (any more / yet) goes nowhere
+            current = CLIENT_ADDR if self.rebound_at is None else (CLIENT_ADDR2 if self.rebound_again_at is None else CLIENT_ADDR3)
+            if addr != current:
+                rec.fate = "blackholed (sent to %r, the client is at %r)" % (addr, current)
+                self.stale_address_drops += 1
+                return
         for delay, alt, corrupt in fate:
             self.in_flight += 1
             self._push(self.now + delay, "deliver", (rec, alt, corrupt))
@@ -586,7 +619,7 @@ class SimNet:
         rec = DatagramRecord("frontend", -1 - n, data, addr, None, self.now)
         fate = self.fates.deliveries("s2c", 100000 + n, self.now)
         rec.fate = fate
-        if addr not in (CLIENT_ADDR, CLIENT_ADDR2):
+        if addr not in (CLIENT_ADDR, CLIENT_ADDR2, CLIENT_ADDR3):
             return
         for delay, _alt, _corrupt in fate:
             self.in_flight += 1
@@ -825,7 +858,23 @@ class SimNet:
                 outcome = "skipped-no-keys"
             else:
                 src = SERVER_ADDR if side == "client" else CLIENT_ADDR
+                if op.get("from_alt") and side == "server":
+                    src = PROBE_ADDR  # a path probe from an address the client never sends its traffic from
+                # the monitors see it like any other delivery: the tap reads it with the peer's keys
+                peer = self.other(ep)
+                views = None
+                if self.tap is not None:
+                    if self.keylog is not None:
+                        self.tap.add_keylog(self.keylog.getvalue())
+                    views = self.tap.on_datagram(peer.name, data, self.now)
+                self.forged += 1
+                rec = DatagramRecord(peer.name, -1000 - self.forged, data, ep.addr, views, self.now)
+                rec.fate = "forged"
+                for m in self.monitors:
+                    m.on_deliver(ep, rec, src, self.now, altered=False)
                 self.call(ep, "receive_datagram", data, src, now=self.now)
+                for m in self.monitors:
+                    m.after_deliver(ep, rec, src, self.now, altered=False)
         elif kind == "close":
             self.call(ep, "close", error_code=op.get("code", 0), frame_type=op.get("frame_type"), reason_phrase=op.get("reason", ""))
         else:
